@@ -2,6 +2,7 @@ package c16
 
 import (
 	"fmt"
+	"runtime"
 	"testing"
 
 	"pgregory.net/rapid"
@@ -15,7 +16,8 @@ const (
 	phDrain = 1 // N removals; at most 2 of them are executed on the empty container
 	phSlide = 2 // N rounds of (M insertions, then M removals); M <= 0 means 1: a sliding window
 	phEmpty = 3 // remove until empty, then N%4 further calls on the empty container (Remove, Peek alternating)
-	nPhases = 4
+	phGC    = 4 // runtime.GC() plus a burst of small allocations (no library call), then the usual observers
+	nPhases = 5
 )
 
 type Phase struct {
@@ -34,10 +36,13 @@ type PCase struct {
 	NC        int     `json:"nc,omitempty"`
 	Quiet     bool    `json:"quiet,omitempty"`
 	ZeroEvery int     `json:"zero_every,omitempty"`
-	Phases    []Phase `json:"phases"`
+	// Procs > 0: the case runs under runtime.GOMAXPROCS(Procs) (restored afterwards). Only units without
+	// parallel replicas generate it (the setting is global to the process).
+	Procs  int     `json:"procs,omitempty"`
+	Phases []Phase `json:"phases"`
 }
 
-const maxCalls = 400000 // executed calls per case; longer (malformed) cases are cut off and labelled
+const maxCalls = 1 << 26 // executed calls per case; longer (malformed) cases are cut off and labelled
 
 func RunPhases(c PCase) pbt.Outcome {
 	nc := c.NC
@@ -46,6 +51,12 @@ func RunPhases(c PCase) pbt.Outcome {
 	}
 	if nc > 8 {
 		return pbt.Fail("malformed case: %d containers", nc)
+	}
+	if c.Procs > 0 {
+		if c.Procs > 64 {
+			return pbt.Fail("malformed case: GOMAXPROCS %d", c.Procs)
+		}
+		defer runtime.GOMAXPROCS(runtime.GOMAXPROCS(c.Procs))
 	}
 	engs := make([]engine, nc)
 	for i := range engs {
@@ -123,6 +134,10 @@ func RunPhases(c PCase) pbt.Outcome {
 					ok = rem(e)
 				}
 			}
+		case phGC:
+			if calls < maxCalls {
+				msg = e.gc(calls)
+			}
 		case phEmpty:
 			for e.size() > 0 && ok {
 				ok = rem(e)
@@ -154,6 +169,7 @@ func RunPhases(c PCase) pbt.Outcome {
 		s.drains += x.drains
 		s.drainsRefilled += x.drainsRefilled
 		s.slidHigh += x.slidHigh
+		s.gcs += x.gcs
 		if x.maxLen > s.maxLen {
 			s.maxLen = x.maxLen
 		}
@@ -164,9 +180,15 @@ func RunPhases(c PCase) pbt.Outcome {
 	}
 	out := pbt.Outcome{Evals: s.evals}
 	out.NonTrivial = len(c.Phases) >= 3 && s.maxLen >= 33 && s.removals >= 33 && (s.slidHigh > 0 || s.drainsRefilled > 0)
-	out.Labels = append(out.Labels, "kind="+c.Kind, fmt.Sprintf("containers=%d", nc))
+	out.Labels = append(out.Labels, "kind="+kindLabel(c.Kind), fmt.Sprintf("containers=%d", nc))
 	if c.Quiet {
 		out.Labels = append(out.Labels, "quiet")
+	}
+	if s.gcs > 0 {
+		out.Labels = append(out.Labels, "gc-in-the-middle")
+	}
+	if c.Procs > 0 {
+		out.Labels = append(out.Labels, fmt.Sprintf("gomaxprocs=%d", c.Procs))
 	}
 	if cut {
 		out.Labels = append(out.Labels, "cut-off-at-maxcalls")
@@ -209,8 +231,14 @@ func RunPhases(c PCase) pbt.Outcome {
 
 func sizeClass(n int) string {
 	switch {
+	case n > 1<<40:
+		return ">2^40"
+	case n > 65536:
+		return "=65537..2^40"
+	case n > 16384:
+		return "=16385..65536"
 	case n > 4096:
-		return ">4096"
+		return "=4097..16384"
 	case n > 1024:
 		return "=1025..4096"
 	case n > 256:
@@ -235,6 +263,8 @@ func phaseString(p Phase) string {
 			m = 1
 		}
 		return fmt.Sprintf("%d x (insert %d, remove %d)", p.N, m, m)
+	case phGC:
+		return "runtime.GC()"
 	}
 	return fmt.Sprintf("remove until empty, then %d call(s) on the empty container", p.N%4)
 }
@@ -298,6 +328,7 @@ func genPhases(t *rapid.T, nc, budget int) []Phase {
 		removed[c] += k
 		calls += n
 	}
+	gcCase := rapid.IntRange(0, 15).Draw(t, "gc") == 0
 	np := rapid.IntRange(3, 14).Draw(t, "phases")
 	for p := 0; p < np && calls < budget; p++ {
 		c := 0
@@ -314,6 +345,9 @@ func genPhases(t *rapid.T, nc, budget int) []Phase {
 		choices := []int{0, 0, 0, 1, 1, 2, 3, 3, 4, 4, 4, 5, 6, 6, 7, 7, 7, 8}
 		if size[c] == 0 {
 			choices = []int{0, 0, 0, 1, 1, 2, 6, 7, 7, 8}
+		}
+		if gcCase {
+			choices = append(choices, 9, 9)
 		}
 		switch rapid.SampledFrom(choices).Draw(t, "phase") {
 		case 0: // fill
@@ -398,6 +432,8 @@ func genPhases(t *rapid.T, nc, budget int) []Phase {
 				removed[c] += n * m
 				calls += 2 * n * m
 			}
+		case 9: // garbage collection in the middle of the history
+			phases = append(phases, Phase{C: c, K: phGC})
 		case 8: // slide until the number of values ever inserted is a multiple of the block (+d)
 			b := block()
 			n := b - total[c]%b + delta()
@@ -438,7 +474,7 @@ func zeroEvery(t *rapid.T) int {
 
 const rulePhases = "phase histories of up to ~12000 calls (3000 for elements wider than 128 bytes): 3..14 phases among fill n, fill until the number of values ever inserted is a multiple of a block B (+0..2 blocks, +d), " +
 	"fill up to a size, drain n (up to 2 calls beyond empty), drain down to a remainder (1..4, size/2, size/4, size/8, B, B/4, all +d), drain until the number of values ever removed is a multiple of B, drain to empty + 0..3 calls on the empty container, " +
-	"sliding window (n rounds of m in / m out, m in 1,2,3,7), slide until the number inserted is a multiple of B; quantities n are 1..8, k*B+d (k 1..5), 2^i+d (i 2..11), B*j/8+d, 1..200 or 1..1500, d in -2..2 (mostly 0), B a power of two 4..1024 fixed per case " +
+	"sliding window (n rounds of m in / m out, m in 1,2,3,7), slide until the number inserted is a multiple of B, and (one case in sixteen) runtime.GC() + small allocations between phases; quantities n are 1..8, k*B+d (k 1..5), 2^i+d (i 2..11), B*j/8+d, 1..200 or 1..1500, d in -2..2 (mostly 0), B a power of two 4..1024 fixed per case " +
 	"(two cases in three) or drawn per quantity; nine cases in ten end by draining everything (each value is compared on its way out); values are unique ids, optionally every 2nd/7th/64th/100th the zero value; one case in eight is quiet; "
 
 const ruleNTPhases = "; non-trivial = at least 3 phases, more than 32 values inside at some point, more than 32 removals, and insertions after removals (window moved or refill after drain-to-empty)"
@@ -476,7 +512,7 @@ var specPair = pbt.Register(&pbt.Spec[PCase]{
 	Property: "C16", Name: "C16.pair", Rule: "rapid: 2..3 independent containers of the same kind (Queue or Stack, any element type) used alternately phase by phase, each against its own model, value ids unique over all of them; " +
 		rulePhases + rule + ruleNTPhases,
 	Gen: genPCase(append(append([]string{}, queueKinds...), kindsOf("stack-nil", "stack-cap")...), 3),
-	Run: RunPhases, Quick: 2000, Thorough: 12000,
+	Run: RunPhases, Quick: 2000, Thorough: 12000, Replicas: 4, ReplicaEvery: 8,
 })
 
 // ---- the enumerated grid ----
@@ -605,7 +641,7 @@ var specGrid = pbt.Register(&pbt.Spec[PCase]{
 			}
 		}
 	},
-	Run: RunPhases,
+	Run: RunPhases, Replicas: 4, ReplicaEvery: 16,
 })
 
 func TestC16PhasesQueue(t *testing.T) { pbt.Check(t, specPhasesQueue) }
